@@ -197,6 +197,8 @@ struct FnOut {
     clauses: Vec<ClauseOut>,
     #[serde(skip)]
     orig_norm: String,
+    #[serde(skip)]
+    derived_closures: Vec<(String, String)>,
 }
 
 #[derive(Serialize, Debug, Clone, Default)]
@@ -1326,6 +1328,11 @@ struct Annotator<'a> {
     contract: Option<&'a FnContract>,
     loop_counter: usize,
     closure_counter: usize,
+    /// anchor of the closure about to be visited: (callee, k) = k-th closure passed to a call of callee
+    cur_anchor: Option<(String, usize)>,
+    call_closure_counter: BTreeMap<String, usize>,
+    uncontracted_closures: usize,
+    derived_closures: Vec<(String, String)>,
     used_closures: BTreeSet<usize>,
     used_loops: BTreeSet<usize>,
     used_calls: BTreeSet<usize>,
@@ -1386,14 +1393,20 @@ impl<'a> Annotator<'a> {
 impl<'a> VisitMut for Annotator<'a> {
     fn visit_expr_closure_mut(&mut self, c: &mut syn::ExprClosure) {
         // closures are numbered in source order; a contract with `match <text>` is attached to the first closure whose
-        // body contains that token text instead (ordinal-independent anchor)
+        // body contains that token text instead, one with `at <callee>#k` to the k-th closure passed to a call of <callee>
+        // (ordinal-independent anchors)
         let k = self.closure_counter;
         self.closure_counter += 1;
+        let anchor = self.cur_anchor.take();
         let body_txt = norm_tokens(&c.body.to_token_stream());
         let mut chosen: Option<usize> = None;
         if let Some(ct) = self.contract {
             for (id, cc) in ct.closures.iter() {
                 if self.used_closures.contains(id) { continue; }
+                if let Some(at) = &cc.at_call {
+                    if anchor.as_ref() == Some(at) { chosen = Some(*id); break; }
+                    continue;
+                }
                 match &cc.match_text {
                     Some(t) => { if body_txt.contains(t.as_str()) { chosen = Some(*id); break; } }
                     None => { if *id == k { chosen = Some(*id); break; } }
@@ -1403,10 +1416,56 @@ impl<'a> VisitMut for Annotator<'a> {
         if let Some(id) = chosen {
             self.used_closures.insert(id);
             let idn = syn::Ident::new(&format!("vx_closure_{}_{}", self.fn_idx, id), Span::call_site());
-            c.attrs.push(syn::parse_quote!(#[#idn]));
+            // the parameter names travel with the marker: `$1`, `$2` in the clauses stand for them
+            let names: Vec<syn::Ident> = c.inputs.iter().map(|p| {
+                let mut q = p;
+                if let syn::Pat::Type(t) = q { q = &*t.pat; }
+                match q { syn::Pat::Ident(i) => i.ident.clone(), _ => syn::Ident::new("vx_no_name", Span::call_site()) }
+            }).collect();
+            c.attrs.push(syn::parse_quote!(#[#idn(#(#names),*)]));
             self.rules.insert("R5".into());
+        } else {
+            // R28: derived postcondition for a pure-expression closure passed to a listed callee
+            let ty = anchor.as_ref().and_then(|(callee, _)| self.contract.and_then(|ct| ct.pure_closures.get(callee)));
+            match ty {
+                Some(ty) if is_pure_spec_expr(&c.body) => {
+                    let idn = syn::Ident::new(&format!("vx_pcl_{}_{}", self.fn_idx, self.derived_closures.len()), Span::call_site());
+                    self.derived_closures.push((ty.clone(), c.body.to_token_stream().to_string()));
+                    c.attrs.push(syn::parse_quote!(#[#idn]));
+                    self.rules.insert("R28".into());
+                }
+                _ => { self.uncontracted_closures += 1; }
+            }
         }
         visit_mut::visit_expr_closure_mut(self, c);
+    }
+
+    fn visit_expr_method_call_mut(&mut self, m: &mut syn::ExprMethodCall) {
+        self.visit_expr_mut(&mut m.receiver);
+        let name = m.method.to_string();
+        for a in m.args.iter_mut() {
+            if matches!(a, syn::Expr::Closure(_)) {
+                let k = self.call_closure_counter.entry(name.clone()).or_insert(0);
+                self.cur_anchor = Some((name.clone(), *k));
+                *k += 1;
+            }
+            self.visit_expr_mut(a);
+            self.cur_anchor = None;
+        }
+    }
+
+    fn visit_expr_call_mut(&mut self, m: &mut syn::ExprCall) {
+        self.visit_expr_mut(&mut m.func);
+        let name = match &*m.func { syn::Expr::Path(p) => p.path.segments.last().map(|s| s.ident.to_string()).unwrap_or_default(), _ => String::new() };
+        for a in m.args.iter_mut() {
+            if matches!(a, syn::Expr::Closure(_)) {
+                let k = self.call_closure_counter.entry(name.clone()).or_insert(0);
+                self.cur_anchor = Some((name.clone(), *k));
+                *k += 1;
+            }
+            self.visit_expr_mut(a);
+            self.cur_anchor = None;
+        }
     }
 
     fn visit_stmt_mut(&mut self, s: &mut syn::Stmt) {
@@ -1518,6 +1577,23 @@ impl<'a> VisitMut for Annotator<'a> {
     }
 }
 
+/// R28: an expression that means the same read as a specification: field reads, comparisons, boolean connectives, `Some(..)`
+fn is_pure_spec_expr(e: &syn::Expr) -> bool {
+    use syn::Expr::*;
+    match e {
+        Path(_) | Lit(_) => true,
+        Field(f) => is_pure_spec_expr(&f.base),
+        Paren(p) => is_pure_spec_expr(&p.expr),
+        Reference(r) => r.mutability.is_none() && is_pure_spec_expr(&r.expr),
+        Unary(u) => matches!(u.op, syn::UnOp::Not(_) | syn::UnOp::Deref(_)) && is_pure_spec_expr(&u.expr),
+        Binary(b) => matches!(b.op, syn::BinOp::Eq(_) | syn::BinOp::Ne(_) | syn::BinOp::Lt(_) | syn::BinOp::Le(_) | syn::BinOp::Gt(_) | syn::BinOp::Ge(_) | syn::BinOp::And(_) | syn::BinOp::Or(_))
+            && is_pure_spec_expr(&b.left) && is_pure_spec_expr(&b.right),
+        Tuple(t) => t.elems.iter().all(is_pure_spec_expr),
+        Call(c) => matches!(&*c.func, syn::Expr::Path(p) if p.path.is_ident("Some") || p.path.is_ident("Ok") || p.path.is_ident("Err")) && c.args.iter().all(is_pure_spec_expr),
+        _ => false,
+    }
+}
+
 fn make_with_attr(with: &str) -> syn::Attribute {
     let ts: TokenStream = with
         .parse()
@@ -1607,6 +1683,10 @@ fn process_fn_common(
         contract,
         loop_counter: 0,
         closure_counter: 0,
+        cur_anchor: None,
+        call_closure_counter: BTreeMap::new(),
+        uncontracted_closures: 0,
+        derived_closures: vec![],
         used_closures: BTreeSet::new(),
         used_loops: BTreeSet::new(),
         used_calls: BTreeSet::new(),
@@ -1668,6 +1748,9 @@ fn process_fn_common(
                 dropped_loops.push(format!("{}: loop #{} no longer exists (its invariants were not attached)", key, k));
             }
         }
+        if c.closures_exhaustive && an.uncontracted_closures > 0 && !external_body {
+            die(format!("lost anchor: {}: {} closure(s) without a contract (the contract says `closures exhaustive`): a closure that was added or moved cannot be judged", key, an.uncontracted_closures));
+        }
         for k in c.closures.keys() {
             if !an.used_closures.contains(k) && !external_body {
                 // like a vanished loop: the closure contract is not emitted; pre/postconditions decide
@@ -1696,6 +1779,7 @@ fn process_fn_common(
         props: contract.map(|c| c.props.clone()).unwrap_or_default(),
         n_loops: an.loop_counter,
         dropped_loops,
+        derived_closures: an.derived_closures.clone(),
         ..Default::default()
     }
 }
@@ -2366,10 +2450,34 @@ fn main() {
                 }
                 continue;
             }
+            if let Some(pos) = line.find("#[vx_pcl_") {
+                let after = &line[pos + "#[vx_pcl_".len()..];
+                let close = after.find(']').unwrap();
+                let rest_of_line = after[close + 1..].trim_start().to_string();
+                let before = line[..pos].to_string();
+                let mut it = after[..close].split('_');
+                let n: usize = it.next().unwrap().parse().unwrap();
+                let k: usize = it.next().unwrap().parse().unwrap();
+                let gi = idx_of_fnidx[&n];
+                let (ty, body) = gen.fns[gi].derived_closures[k].clone();
+                if !before.trim().is_empty() { push_line(&mut final_out, &mut line_no, before.trim_end()); }
+                push_line(&mut final_out, &mut line_no, &format!("{}#[verus_spec(vx_ret: {} => ensures vx_ret == ({}))]", indent, ty, body));
+                if !rest_of_line.is_empty() { push_line(&mut final_out, &mut line_no, &format!("{}{}", indent, rest_of_line)); }
+                continue;
+            }
             if let Some(pos) = line.find("#[vx_closure_") {
                 let after = &line[pos + "#[vx_closure_".len()..];
                 let close = after.find(']').unwrap();
-                let ids = &after[..close];
+                let ids_full = &after[..close];
+                let (ids, pnames): (&str, Vec<String>) = match ids_full.split_once('(') {
+                    Some((a, b)) => (a, b.trim_end_matches(')').split(',').map(|x| x.trim().to_string()).filter(|x| !x.is_empty()).collect()),
+                    None => (ids_full, vec![]),
+                };
+                let subst = |t: &str| -> String {
+                    let mut o = t.to_string();
+                    for (i, n) in pnames.iter().enumerate().rev() { o = o.replace(&format!("${}", i + 1), n); }
+                    o
+                };
                 let rest_of_line = after[close + 1..].trim_start().to_string();
                 let before = line[..pos].to_string();
                 let mut it = ids.split('_');
@@ -2387,7 +2495,8 @@ fn main() {
                     push_line(&mut final_out, &mut line_no, &format!("{}    {}", indent, kw));
                     for cl in cls {
                         let start = line_no + 1;
-                        let lines: Vec<&str> = cl.text.lines().collect();
+                        let txt = subst(&cl.text);
+                        let lines: Vec<&str> = txt.lines().collect();
                         for (kk, l) in lines.iter().enumerate() {
                             let comma = if kk + 1 == lines.len() { "," } else { "" };
                             push_line(&mut final_out, &mut line_no, &format!("{}        {}{}", indent, l, comma));
